@@ -23,8 +23,9 @@ TRUSTED = [
     'LinkManager add_link+remove_link for JoinLink: tied to the code by correspondence on the explored cases only',
     'numpy is the platform: np.isin compares by value after numeric promotion; S<n> items compare ignoring trailing NUL bytes; '
     'np.promote_types / np.asarray(dtype=) casts; the model takes the stored bytes (ndarray.tobytes, little endian) as input',
-    'float keys: the model identifies a finite double with its bit pattern (+0.0 and -0.0 identified); int -> float64 conversion '
-    'is the model function f64_of_int (exact below 2^53), tied by the mixed int/float correspondence cases',
+    'float keys: the model identifies a finite double with its bit pattern (+0.0 and -0.0 identified); an int and a float are compared exactly '
+    '(flt_eq_int decodes the double); the int -> float64 cast of the n-n branch is the model function f64_of_int (round to nearest even), '
+    'tied by the mixed int/float correspondence cases',
     'the view is turned into flat element indices by numpy (np.arange(size).reshape(shape)[view]) before it reaches the model',
     'the selection is abstracted to its own evaluation per dataset (a mask, or IncompatibleAttribute); real states used: '
     'InequalitySubsetState on a hidden column, and a table-driven SubsetState subclass for several evaluators',
@@ -32,10 +33,13 @@ TRUSTED = [
 ASSUMPTIONS = [
     'key columns compared with each other are both numeric (int8..int64, float64) or both unicode strings; number-vs-string joins are outside the modelled domain',
     'float32 and unsigned integer key columns are outside the model: they are checked against the oracle only (stream other-dtypes)',
-    'no NaN keys; integer keys below 2^53 in magnitude when they meet a float column; no embedded NUL characters in string keys',
+    'no NaN keys; no embedded NUL characters in string keys',
+    'float-representability limit (accepted, not a finding): an int64 key compared directly with a float64 key that is its rounded image without '
+    'being equal to it (2^53+1 against 2.0^53) is outside the domain - numpy itself defines np.int64(2**53+1) == np.float64(2**53) as True; '
+    'the generators replace such floats (sanitize) and the model rejects such pairs (conv_ok)',
     'every dataset has at least one element; key tuples have at least one component',
     'a JoinLink equal to one already registered is not added again; only links that were added are removed',
-    'the check must be run on a tree that contains the three C11 `fix:` commits (see notes/C11.md); on glue-core @56f48f0 it reports the three genuine defects as violations',
+    'the check must be run on a tree that contains the four C11 `fix:` commits (see notes/C11.md; the fourth is 8e82813 on branch wt-C11b); without them it reports the corresponding genuine defects as violations',
 ]
 
 KIND_TAG = {'i': 0, 'f': 1, 'U': 2}
@@ -495,6 +499,30 @@ def shrink_candidates(case):
     # drop rows (when every view is None or a flat index list and the selections are tables)
     flat_ok = all(q['sel'][0] == 'table' and (q['view'] is None or (q['view'][0] == 'idx' and len(c['datasets'][q['d']]['shape']) == 1))
                   for q in c['queries'])
+    def drop_rows(k, rs):
+        rs = sorted(rs, reverse=True)
+        d = copy.deepcopy(c)
+        dd = d['datasets'][k]
+        for r in rs:
+            for col in dd['cols']:
+                del col['values'][r]
+            del dd['u'][r]
+            for q in d['queries']:
+                if str(k) in q['sel'][1]:
+                    del q['sel'][1][str(k)][r]
+                if q['d'] == k and q['view'] is not None:
+                    q['view'] = ['idx', [x - (1 if x > r else 0) for x in q['view'][1] if x != r]]
+        dd['shape'] = [len(dd['u'])]
+        return d
+    if flat_ok:
+        for k, ds in enumerate(c['datasets']):
+            n_k = ds['shape'][0] if len(ds['shape']) == 1 else 0
+            size = n_k // 2
+            while size >= 2:                       # chunks first (large tables), single rows below
+                for start in range(0, n_k, size):
+                    if min(start + size, n_k) - start < n_k:
+                        yield drop_rows(k, range(start, min(start + size, n_k)))
+                size //= 2
     if flat_ok:
         for k, ds in enumerate(c['datasets']):
             if len(ds['shape']) == 1 and ds['shape'][0] > 1:
@@ -522,15 +550,21 @@ def shrink_candidates(case):
                         yield d
 
 
+SHRINK_CLOCK = {'spent': 0.0, 'limit': 150.0}
+
+
 def shrink(case, pred, budget=400):
-    """greedy: keep any smaller case on which pred still holds"""
+    """greedy: keep any smaller case on which pred still holds (bounded by a number of trials and by wall time)"""
+    import time
     cur = case
     progress = True
+    t0 = time.time()
     while progress and budget > 0:
         progress = False
         for cand in shrink_candidates(cur):
             budget -= 1
-            if budget <= 0:
+            if budget <= 0 or SHRINK_CLOCK['spent'] + time.time() - t0 > SHRINK_CLOCK['limit'] or time.time() - t0 > 30:
+                budget = 0
                 break
             try:
                 ok = pred(cand)
@@ -540,6 +574,7 @@ def shrink(case, pred, budget=400):
                 cur = cand
                 progress = True
                 break
+    SHRINK_CLOCK['spent'] += time.time() - t0
     return cur
 
 
@@ -565,7 +600,7 @@ def report(R, case, stream, fails):
                 Bc = build(c)
                 r = run_impl(Bc)
                 return any(oracle_check(Bc, q, r[i][0]) is not None for i, q in enumerate(c['queries']))
-            small = shrink(c1, pred)
+            small = shrink(c1, pred, budget=1500)
             Bs = build(small)
             rs = run_impl(Bs)
             det = oracle_check(Bs, small['queries'][0], rs[0][0])
@@ -860,7 +895,7 @@ def rand_case(rng, force=None, num_dt=None):
 
 
 def stream_random(R):
-    ncases = R.pick(2500, 14000)
+    ncases = R.pick(1800, 14000)
     cases = []
     for i in range(ncases):
         rng = R.subrng('random', i)
@@ -909,11 +944,14 @@ def large_case(rng):
             return {'dtype': 'f8', 'values': [rng.choice([0.5, 5.0, -0.0, 0.0, 7.25]) for _ in range(n)]}
         return {'dtype': k, 'values': [rng.choice([0, 1, 5]) for _ in range(n)]}
 
-    nl, nr = rng.randrange(20, 201), rng.randrange(20, 201)
+    ldt, rdt = dtype_for(0), dtype_for(1)
+    # the extracted model is slow on n-n joins and on int/float pairs (every pair of rows is cast / checked): smaller tables there
+    cap = 201 if (shape == '11' and ldt[0] == rdt[0]) else 121 if kind == 'str' else 71
+    nl, nr = rng.randrange(20, cap), rng.randrange(20, cap)
     pl = rng.sample(U, rng.randrange(12, max(13, int(0.7 * nu))))
     pr = rng.sample(U, rng.randrange(15, max(16, int(0.8 * nu))))
-    lcol = {'dtype': dtype_for(0), 'values': [rng.choice(pl) for _ in range(nl)]}
-    rcol = {'dtype': dtype_for(1), 'values': [rng.choice(pr) for _ in range(nr)]}
+    lcol = {'dtype': ldt, 'values': [rng.choice(pl) for _ in range(nl)]}
+    rcol = {'dtype': rdt, 'values': [rng.choice(pr) for _ in range(nr)]}
     L = {'shape': [nl], 'cols': [lcol], 'u': rng.sample(range(nl), nl)}
     Rt = {'shape': [nr], 'cols': [rcol], 'u': rng.sample(range(nr), nr)}
     if shape == '11':
@@ -959,7 +997,7 @@ def large_case(rng):
 
 
 def stream_large(R):
-    n = R.pick(220, 1500)
+    n = R.pick(100, 900)
     cases = [large_case(R.subrng('large', i)) for i in range(n)]
     nq = 0
     for i in range(0, len(cases), 40):
@@ -1052,6 +1090,12 @@ CORPUS = [
                   {'shape': [2], 'cols': [{'dtype': 'i8', 'values': [1, 2]}], 'u': [0, 1]}],
      'ops': [['join', 0, 1, [0], [0], 0], ['join', 0, 0, [0], [1], 0]],
      'queries': [{'d': 0, 'view': None, 'sel': ['table', {}]}]},
+    # 1-1 join of an int64 column (distinct values that collide as float64) with a float64 column, 20 keys selected:
+    # np.isin reported the colliding integers as matches of each other
+    {'datasets': [{'shape': [3], 'cols': [{'dtype': 'i8', 'values': [2 ** 60 + 1, 2 ** 60 + 2, 7]}], 'u': [0, 1, 2]},
+                  {'shape': [20], 'cols': [{'dtype': 'f8', 'values': [i + 0.5 for i in range(20)]}], 'u': list(range(20))}],
+     'ops': [['join', 0, 1, [0], [0], 0]],
+     'queries': [{'d': 0, 'view': None, 'sel': ['table', {'1': [1] * 20}]}]},
     # 3-cycle, nobody can evaluate
     {'datasets': [{'shape': [2], 'cols': [{'dtype': 'i8', 'values': [1, 2]}], 'u': [0, 1]} for _ in range(3)],
      'ops': [['join', 0, 1, [0], [0], 0], ['join', 1, 2, [0], [0], 0], ['join', 2, 0, [0], [0], 0]],
